@@ -873,6 +873,16 @@ func codegenCmd(a Args) {
 			}
 			args := []string{file, miss}
 			addCase(n, d, args, "ignore-missing", addGroup(d.YAML, args), false)
+			// the name of a PROPERTY as the ignore argument: it names no object (unless an object happens to
+			// carry the same name), so nothing but such an object may disappear - in particular no field
+			for _, o := range d.Objs {
+				if len(o.Props) > 0 && g.r.Intn(3) == 0 {
+					pn := o.Props[g.r.Intn(len(o.Props))].Name
+					args := []string{file, pn}
+					addCase(n, d, args, "ignore-property-name", addGroup(d.YAML, args), false)
+					break
+				}
+			}
 			// `go generate` with ARG unset passes an empty argument
 			if g.r.Intn(2) == 0 {
 				args := []string{file, ""}
